@@ -39,13 +39,15 @@ import (
 )
 
 type backendIn struct {
-	Backend string   `json:"backend"` // datadog influxdb newrelic otlp cloudwatch stdout null graphite statsd-tcp statsd-udp
-	Aggs    []int    `json:"aggs"`    // gauges per aggregator (one SendMetricsAsync per aggregator and backend)
-	Bad     [][]int  `json:"bad"`     // per aggregator: indices of the gauges whose batch the server refuses
-	Mode    string   `json:"mode"`    // http: ok bad500 bad400 bad429 badreset flaky all500 | socket: up down recover acceptclose
-	Cancel  string   `json:"cancel"`  // never | before | during | after
-	MaxReq  int      `json:"maxreq"`  // max concurrent requests of the backend
-	Extra   []string `json:"extra"`   // further backends of the same flusher: null | stdout
+	Backend    string   `json:"backend"`               // datadog influxdb newrelic otlp cloudwatch stdout null graphite statsd-tcp statsd-udp
+	Aggs       []int    `json:"aggs"`                  // gauges per aggregator (one SendMetricsAsync per aggregator and backend)
+	Bad        [][]int  `json:"bad"`                   // per aggregator: indices of the gauges whose batch the server refuses
+	Mode       string   `json:"mode"`                  // http: ok bad500 bad400 bad429 badreset flaky all500 all429 allreset | socket: up down recover acceptclose
+	Window     int      `json:"window,omitempty"`      // max-request-elapsed-time in seconds of the mock clock (0 = 60)
+	RetryAfter int      `json:"retry_after,omitempty"` // Retry-After header of the 429 answers (0 = 1)
+	Cancel     string   `json:"cancel"`                // never | before | during | after
+	MaxReq     int      `json:"maxreq"`                // max concurrent requests of the backend
+	Extra      []string `json:"extra"`                 // further backends of the same flusher: null | stdout
 }
 
 var tokenRe = regexp.MustCompile(`f(\d+)a(\d+)x(\d+)(ok|bad)`)
@@ -66,11 +68,12 @@ type bodyRec struct {
 }
 
 type transportScript struct {
-	mu      sync.Mutex
-	mode    string
-	bodies  map[string]*bodyRec
-	held    int
-	release chan struct{}
+	mu         sync.Mutex
+	mode       string
+	bodies     map[string]*bodyRec
+	held       int
+	release    chan struct{}
+	retryAfter int
 }
 
 func (ts *transportScript) setMode(m string) {
@@ -104,6 +107,10 @@ func (ts *transportScript) decide(body string) (string, *bodyRec) {
 		return "hold", rec
 	case "all500":
 		return "500", rec
+	case "all429":
+		return "429", rec
+	case "allreset":
+		return "reset", rec
 	case "flaky":
 		if rec.attempts <= 2 {
 			return "500", rec
@@ -169,7 +176,7 @@ func (ts *transportScript) handler(w http.ResponseWriter, r *http.Request) {
 	case "400":
 		w.WriteHeader(http.StatusBadRequest)
 	case "429":
-		w.Header().Set("Retry-After", "1")
+		w.Header().Set("Retry-After", strconv.Itoa(max(1, ts.retryAfter)))
 		w.WriteHeader(http.StatusTooManyRequests)
 	case "reset":
 		if hj, ok := w.(http.Hijacker); ok {
@@ -342,7 +349,7 @@ type wrapBackend struct {
 	fr    *flushRun
 }
 
-func (w *wrapBackend) Name() string                                         { return w.inner.Name() }
+func (w *wrapBackend) Name() string                                           { return w.inner.Name() }
 func (w *wrapBackend) SendEvent(ctx context.Context, e *gostatsd.Event) error { return nil }
 func (w *wrapBackend) SendMetricsAsync(ctx context.Context, mm *gostatsd.MetricMap, cb gostatsd.SendCallback) {
 	fr := w.fr
@@ -439,7 +446,7 @@ func runBackend(in input) hlib.Case {
 	fr := &flushRun{base: map[*gostatsd.MetricMap]int{}, aggOf: map[*gostatsd.MetricMap]int{}}
 	logger := logrus.New()
 	logger.SetOutput(io.Discard)
-	ts := &transportScript{mode: bi.Mode, bodies: map[string]*bodyRec{}, release: make(chan struct{})}
+	ts := &transportScript{mode: bi.Mode, bodies: map[string]*bodyRec{}, release: make(chan struct{}), retryAfter: bi.RetryAfter}
 	var srv *httptest.Server
 	var sock *sockServer
 	runCtx, cancelRun := context.WithCancel(context.Background())
@@ -461,7 +468,17 @@ func runBackend(in input) hlib.Case {
 	if isHTTP(bi.Backend) {
 		srv = httptest.NewServer(http.HandlerFunc(ts.handler))
 	}
-	const window = 60 * time.Second // retry window, on the mock clock (1 s per 200 us of real time)
+	// retry window, on the mock clock (1 s per 200 us of real time): all four post loops take their
+	// clock from the context
+	window := 60 * time.Second
+	if bi.Window > 0 {
+		window = time.Duration(bi.Window) * time.Second
+	}
+	// a flush must be back within the retry window plus slack for the requests themselves
+	deadline := 12 * time.Second
+	if bi.Window > 0 && isHTTP(bi.Backend) {
+		deadline = 4 * time.Second
+	}
 	switch bi.Backend {
 	case "datadog":
 		be, err = datadog.NewClient(srv.URL, "key", "ua", "default", 21, uint(maxReq), false, window, time.Second, gostatsd.TimerSubtypes{}, logger, pool)
@@ -627,8 +644,8 @@ func runBackend(in input) hlib.Case {
 					fr.monitor("harness could not re-open the listener: " + e.Error())
 				}
 			}
-			if el > 12*time.Second {
-				fr.monitor(fmt.Sprintf("flushData (flush %d, cancel %s) did not return within 12 s", f, cancelMode))
+			if el > deadline {
+				fr.monitor(fmt.Sprintf("flushData (flush %d, cancel %s) did not return within %v: a request never called back (retry window %v of the mock clock, advanced 1 s per 200 us)", f, cancelMode, deadline, window))
 				return false
 			}
 		}
@@ -759,6 +776,9 @@ func runBackend(in input) hlib.Case {
 		total += n
 	}
 	c.Nontrivial = total > 0 && (bi.Cancel != "never" || (bi.Mode != "ok" && bi.Mode != "up"))
+	if bi.Window > 0 && isHTTP(bi.Backend) && strings.HasPrefix(bi.Mode, "all") {
+		c.Class = fmt.Sprintf("backend/%s/%s-window/%s", bi.Backend, bi.Mode, bi.Cancel)
+	}
 	return c
 }
 
@@ -772,7 +792,27 @@ func mustJSON(v interface{}) string {
 
 var backendNames = []string{"datadog", "influxdb", "newrelic", "otlp", "cloudwatch", "graphite", "statsd-tcp", "statsd-udp", "stdout", "null"}
 
+var retrying = []string{"newrelic", "datadog", "influxdb", "otlp"}
+var persistent = []string{"all429", "all500", "allreset"}
+
 func genBackend(r *hlib.Rand, k int) *backendIn {
+	if k < 2*len(retrying)*len(persistent) {
+		// every run: each retrying HTTP backend under a fault that outlasts a short retry window (always
+		// 429 + Retry-After shorter / longer than the window, always 5xx, always a connection error):
+		// the window must end and the request must call back once, with an error
+		in := &backendIn{Backend: retrying[k%len(retrying)], Mode: persistent[(k/len(retrying))%len(persistent)],
+			MaxReq: 1 + r.Intn(3), Window: 1 + r.Intn(3), RetryAfter: hlib.Pick(r, []int{1, 1, 2, 5, 100}), Cancel: "never"}
+		if k >= len(retrying)*len(persistent) {
+			in.Cancel = hlib.Pick(r, []string{"never", "after"})
+			in.Extra = []string{"null"}
+		}
+		for a, naggs := 0, 1+r.Intn(2); a < naggs; a++ {
+			in.Aggs = append(in.Aggs, 1+r.Intn(3))
+			in.Bad = append(in.Bad, nil)
+		}
+		return in
+	}
+	k -= 2 * len(retrying) * len(persistent)
 	in := &backendIn{Backend: backendNames[k%len(backendNames)], MaxReq: 1 + r.Intn(4)}
 	naggs := hlib.Pick(r, []int{1, 1, 2, 3})
 	many := 5
@@ -792,7 +832,11 @@ func genBackend(r *hlib.Rand, k int) *backendIn {
 	}
 	switch {
 	case isHTTP(in.Backend) || in.Backend == "cloudwatch":
-		in.Mode = hlib.Pick(r, []string{"ok", "bad500", "bad500", "bad400", "bad429", "badreset", "flaky", "all500"})
+		in.Mode = hlib.Pick(r, []string{"ok", "bad500", "bad500", "bad400", "bad429", "badreset", "flaky", "all500", "all429", "allreset"})
+		in.RetryAfter = hlib.Pick(r, []int{1, 1, 3, 100})
+		if r.Chance(1, 3) {
+			in.Window = 1 + r.Intn(5)
+		}
 		in.Cancel = hlib.Pick(r, []string{"never", "never", "never", "before", "during", "after"})
 	case isSocket(in.Backend):
 		in.Mode = hlib.Pick(r, []string{"up", "up", "down", "acceptclose", "recover"})
